@@ -333,3 +333,11 @@ def run(chk, repo, tier):
              'writer, reader and schema)')
     from . import c12 as _c12
     _c12.yaml_machinery(chk, repo, 'R18.7')
+    # what the writer can emit (%g: exponent forms) the reader recognises as
+    # a number
+    from .. import reviewed as _rv
+    for q in ('UnitsParser.isnumber', 'UnitsParser.parse_number'):
+        _rv.check(chk, 'R18.5', repo, 'pgradd/Units/parser.py', q,
+                  '%s is unchanged in normal form from its reviewed reference '
+                  '(numbers in exponent notation are numbers)' % q)
+
